@@ -415,7 +415,7 @@ func init() {
 			"cli: wrgl prune / wrgl gc after branch deletion and reset on an on-disk repository, exports compared. non-trivial = at least 2 commits and 1 ref; distinct by case description",
 		Assumptions: []string{"refs live in a map-backed store (prune only lists refs)", "tables are drawn from a 3-table pool at the real block size"},
 		Harnesses: []*mc.Harness{
-			{Name: "histories", Body: c12Body, DevBound: map[string]int{"quick": 1, "thorough": 2}, Budget: map[string]time.Duration{"quick": 60 * time.Second, "thorough": 14 * time.Minute}},
+			{Name: "histories", Body: c12Body, DevBound: map[string]int{"quick": 1, "thorough": 2}, Budget: map[string]time.Duration{"quick": 150 * time.Second, "thorough": 14 * time.Minute}},
 			{Name: "merged-side-branches", Body: c12Merges, DevBound: map[string]int{"quick": 0, "thorough": 1}, Budget: map[string]time.Duration{"quick": 45 * time.Second, "thorough": 10 * time.Minute}},
 			{Name: "cli-prune-gc", Body: c12CLI, Budget: map[string]time.Duration{"quick": 40 * time.Second, "thorough": 3 * time.Minute}},
 		},
